@@ -74,8 +74,18 @@ func (e *DefaultExecutor) Execute(ctx context.Context, job *Job) ([]byte, error)
 		return nil, err
 	}
 
-	env := e.env
-	env = append(env, utils.ConvertEnv(utils.ConvertToMapOfStrings(job.Env.Map()))...)
+	// job's variables must override process environment regardless of their values,
+	// so duplicates are resolved here and not by the interpreter
+	envMap := make(map[string]string, len(e.env))
+	for _, kv := range e.env {
+		if i := strings.IndexByte(kv, '='); i > 0 {
+			envMap[kv[:i]] = kv[i+1:]
+		}
+	}
+	for k, v := range utils.ConvertToMapOfStrings(job.Env.Map()) {
+		envMap[k] = v
+	}
+	env := utils.ConvertEnv(envMap)
 
 	if job.Dir == "" {
 		job.Dir = e.dir
